@@ -228,3 +228,46 @@ class BatchRequestIsNotification:
 
     def ensures_def(self, result):
         return result == all(r._id is None for r in self._requests)
+
+
+# ------------------------------------------------------------------------------------------------ batch responses (C06 / C05 / C08)
+from spec.jsonrpc import valid_error_obj, valid_response_obj
+from pjrpc.common.exceptions import JsonRpcErrorMeta
+
+
+@contract('pjrpc.common.v20:BatchResponse.from_json', props=['C06', 'C05', 'C08'])
+class BatchResponseFromJson:
+    """C06: a response array is accepted iff every element is a valid response object (only DeserializationError /
+    IdentityError otherwise); C05: each element is deserialised like a single response - in particular its error becomes
+    an instance of the class registered for the code, else of the SUPPLIED base class (comprehension contract, generic
+    element)."""
+    types = {'json_data': 'json', 'error_cls': 'type<=pjrpc.common.exceptions:JsonRpcError'}
+    pins = {'cls': 'pjrpc.common.v20:BatchResponse'}
+    raises_only = ('pjrpc.common.exceptions:DeserializationError', 'pjrpc.common.exceptions:IdentityError')
+    result_type = '=pjrpc.common.v20:BatchResponse'
+    cross_check = False
+    comp_elements = {'elt_contains': 'from_json'}
+
+    def raises_DeserializationError_iff(cls, json_data, error_cls):
+        if isinstance(json_data, list):
+            return not all(valid_response_obj(x) for x in json_data)
+        if not isinstance(json_data, dict):
+            return True
+        # a single object is accepted only as a batch-level error: {"jsonrpc": "2.0", "id": null, "error": {...}}
+        if is_absent(member(json_data, 'jsonrpc')) or member(json_data, 'jsonrpc') != '2.0':
+            return True
+        if not is_absent(member(json_data, 'id')) and member(json_data, 'id') is not None:
+            return True
+        if is_absent(member(json_data, 'error')):
+            return True
+        return not valid_error_obj(member(json_data, 'error'))
+
+    def comp_elements__source(cls, json_data, error_cls, xs):
+        return seq_same(xs, json_data)
+
+    def comp_elements__element(cls, json_data, error_cls, x, y):
+        e = member(x, 'error')
+        if is_absent(e):
+            return isinstance(y, Response) and y._error is UNSET
+        return (isinstance(y, Response) and isinstance(y._error, JsonRpcError)
+                and class_is(y._error, JsonRpcErrorMeta.__errors_mapping__.get(member(e, 'code'), error_cls)))
